@@ -268,6 +268,27 @@ func isIntLike(t types.Type) bool {
 // isSelfIndex: v is <something>.PartyID().Index (the party's own index).
 func isSelfIndex(v ssa.Value) bool {
 	v = core.Strip(v)
+	// the own index handed to a private helper (or a closure) as an argument
+	if p, ok := v.(*ssa.Parameter); ok && bindableParam(p) && !selfIndexBusy[p] {
+		idx := -1
+		for k, q := range p.Parent().Params {
+			if q == p {
+				idx = k
+			}
+		}
+		sites := core.ClosureCallSites(p.Parent())
+		if idx < 0 || len(sites) == 0 {
+			return false
+		}
+		selfIndexBusy[p] = true
+		defer delete(selfIndexBusy, p)
+		for _, cs := range sites {
+			if idx >= len(cs.Common().Args) || !isSelfIndex(cs.Common().Args[idx]) {
+				return false
+			}
+		}
+		return true
+	}
 	fr := core.AsFieldLoad(v)
 	if fr == nil || fr.Name != "Index" {
 		return false
@@ -281,6 +302,8 @@ func isSelfIndex(v ssa.Value) bool {
 	}
 	return false
 }
+
+var selfIndexBusy = map[*ssa.Parameter]bool{}
 
 // loopIdx: v is the index value of a counted/range loop in its function.
 func loopIdx(v ssa.Value) *core.Loop {
